@@ -39,7 +39,10 @@ L5 == [comps |-> <<"s1", "c2">>,
        feedbacks |-> {}, fbtypes |-> <<>>,
        sm |-> {"s1"}, teleAuto |-> FALSE, modes |-> {"m1"}, defmode |-> "m1", period |-> 20000]
 
-LayoutOf(n) == CASE n = "L1" -> L1 [] n = "L2" -> L2 [] n = "L3" -> L3 [] n = "L4" -> L4 [] n = "L5" -> L5
+\* L2 with the default robotPeriodic(): the chooser widget's selection is fetched every iteration
+L6 == L4 @@ [rp |-> FALSE]
+
+LayoutOf(n) == CASE n = "L1" -> L1 [] n = "L2" -> L2 [] n = "L3" -> L3 [] n = "L4" -> L4 [] n = "L5" -> L5 [] n = "L6" -> L6
 
 MCInit == /\ \E n \in LayoutNames : \E f \in FmsChoices : Init(LayoutOf(n), f)
           /\ nchg = 0
@@ -75,6 +78,7 @@ EnvInputs ==
                THEN {[e |-> "ds", m |-> m] : m \in {"disabled", "auto", "teleop", "test"} \ {dsNew}}
                     \cup (IF AllowFmsToggle THEN {[e |-> "fms", b |-> ~fms]} ELSE {})
                     \cup {[e |-> "sel", s |-> s] : s \in (sh.modes \cup {"bogus"}) \ {selStr}}
+                    \cup (IF ~RP THEN {[e |-> "choose", m |-> m] : m \in (sh.modes \cup {"None"}) \ {chooserNew}} ELSE {})
                     \cup (IF AllowEnd /\ ~exit THEN {[e |-> "end"]} ELSE {})
                ELSE {})
 Inputs == CbInputs \cup EnvInputs
@@ -83,14 +87,14 @@ Inputs == CbInputs \cup EnvInputs
 MCNext ==
     IF SilentEnabled THEN Silent /\ UNCHANGED nchg
     ELSE \E ev \in Inputs : /\ EvNext(ev)
-                            /\ nchg' = nchg + (IF ev.e \in {"ds", "fms", "sel", "end"} \/ (ev.e = "cb" /\ "dsw" \in DOMAIN ev /\ ev.dsw # "")
+                            /\ nchg' = nchg + (IF ev.e \in {"ds", "fms", "sel", "end", "choose"} \/ (ev.e = "cb" /\ "dsw" \in DOMAIN ev /\ ev.dsw # "")
                                                THEN 1 ELSE 0)
 MCSpec == MCInit /\ [][MCNext]_<<rvars, nchg>>
 
 Bound == iterNo <= MaxIter
 
 \* absolute time is irrelevant; only the distance to the alarm and to the autonomous timer matter
-MCView == <<sh, ds, dsNew, fms, exit, selStr, pc, mode, ntMode, todo, fbleft, en, nsetup, rv, smReq, fbNT, alarm - now,
+MCView == <<sh, chooser, chooserNew, ds, dsNew, fms, exit, selStr, pc, mode, ntMode, todo, fbleft, en, nsetup, rv, smReq, fbNT, alarm - now,
             IF mode = "auto" THEN now - autoT0 ELSE 0, active, mIter, nfault, swallowed, nchg,
             iterNo>>
 
@@ -110,5 +114,7 @@ Probe_SmGo == ~(\E c \in sh.sm : smReq[c] /\ NextSite = Site("execute", c))
 Probe_SmReqSurvivesDisable == ~(\E c \in sh.sm : smReq[c] /\ mode = "disabled" /\ pc = "wait")   \* engaged from disabledPeriodic
 \* the driver station changed its mind while the robot was leaving a mode: the dispatcher acts on the word it polled
 Probe_StaleDispatch == ~(pc = "dispatch" /\ todo = <<>> /\ ds # dsNew)
+\* a mode picked on the chooser widget while the robot was running is the one that runs in the next autonomous period
+Probe_ChooserPicked == ~(mode = "auto" /\ active # None /\ active # sh.defmode /\ selStr \notin sh.modes)
 Probe_DirectSwitch == ~(mode = "teleop" /\ pc = "enter" /\ \E c \in CompSet : en[c])
 =============================================================================
